@@ -1,5 +1,6 @@
 //! C15: forked histories on the real `flag::*` actions with real signals.
 //!   flag b<k> | usize u<k> <v> | shutdown <status> b<k> | set <flag> <v> | raise
+//!   thread     — start a second, sleeping thread first (exit:77 = only the delivering thread went away)
 //!   reraiser   — a raw action that raises the same signal again, once, from inside the delivery
 //!                (the signal is blocked while its handler runs, so the second delivery starts
 //!                when the first has returned)
@@ -39,6 +40,15 @@ fn run_child(ops: &[String]) {
             ["set", f, v] => {
                 let v: usize = v.parse().unwrap();
                 if f.starts_with('b') { getb(&mut bools, f).store(v != 0, Ordering::SeqCst); } else { getu(&mut usizes, f).store(v, Ordering::SeqCst); }
+                println!("ok");
+            }
+            ["thread"] => {
+                // a second thread in the process: a shutdown has to end the whole process, not the thread
+                // the delivery happened to run on. Should only that thread end, this one reports it.
+                std::thread::spawn(|| {
+                    std::thread::sleep(std::time::Duration::from_millis(6000));
+                    unsafe { libc::_exit(77) };
+                });
                 println!("ok");
             }
             ["reraiser"] => {
